@@ -616,6 +616,7 @@ CHECKS = {
             T('MC_Core', 'Core_live_dial_async5.cfg', workers=8),   # liveness under fairness: a lost connection is redialled unless the dialer is closed
             T('MC_Core', 'Core_live_dial_sync5.cfg', workers=8),
             T('MC_Core', 'Core_C14_nomax.cfg', tiers=('thorough',)),
+            T('MC_Core', 'Core_C14_setopt.cfg', workers=8, tiers=('thorough',)),   # reconnect times changed at any moment (SetReconnOpt): 7.6 M states
             C('core', 'TestCore', 'TraceCore', n={'quick': 100, 'thorough': 1200}, env={'VERIF_CORE_MIX': 'storm'}),
         ],
         'assumptions': ASSUME_COMMON,
